@@ -495,6 +495,11 @@ impl GrammarBuilder {
         }
     }
 
+    /// True if `node` carries a parameter expression other than the plain `_`.
+    pub fn has_param_expr(&self, node: NodeRef) -> bool {
+        node.param_id.is_some_and(|id| id != self.self_ref)
+    }
+
     pub fn node_to_string(&self, node: NodeRef) -> String {
         if node.is_parametric() {
             let param = self.params.get(node.param_id.unwrap());
